@@ -25,7 +25,7 @@ def expected_iteration(H, mode, auto_active):
     else:
         head = [PERIODIC_SITE[mode]]
     if mode in ("teleop", "auto"):
-        head += [f"{cn}.execute" for cn in H.comps]
+        head += [f"{cn}.execute" for cn in H.comps if f"{cn}.execute" not in getattr(H, "silent", ())]
     return head, set(_fb_sites(H)), ["robot.robotPeriodic"]
 
 
